@@ -10,6 +10,7 @@ import itertools
 from zope.interface import Interface, implementer, interfacemethod, directlyProvides
 from zope.interface.interface import adapter_hooks, InterfaceClass
 from zope.interface.adapter import AdapterRegistry
+from .common import wmod, newworld
 
 LOG = []
 
@@ -28,9 +29,11 @@ PROVIDED = ['no', 'class', 'direct']
 
 def make_iface(adapt):
     if adapt == 'std':
-        return InterfaceClass('I', (Interface,), {'__module__': 'w'})
+        return InterfaceClass('I', (Interface,), {'__module__': wmod()})
 
     class I(Interface):
+        __module__ = wmod()
+
         @interfacemethod
         def __adapt__(self, obj):
             LOG.append('adapt')
@@ -156,6 +159,7 @@ def expected(conf, provided, hooks, alt, adapt):
 
 def eval_case(case):
     adapt, conf, provided, hooks, alt = case
+    newworld()
     I = make_iface(adapt)
     obj = make_obj(I, conf, provided)
     saved = list(adapter_hooks)
@@ -194,10 +198,11 @@ def eval_registry(case):
     """With a registry's adapter_hook installed the result equals
     registry.queryAdapter(obj, I)."""
     regkind, provided, alt = case
-    R0 = InterfaceClass('R0', (Interface,), {'__module__': 'w'})
-    R1 = InterfaceClass('R1', (R0,), {'__module__': 'w'})
-    I = InterfaceClass('I', (Interface,), {'__module__': 'w'})
-    I2 = InterfaceClass('I2', (I,), {'__module__': 'w'})
+    newworld()
+    R0 = InterfaceClass('R0', (Interface,), {'__module__': wmod()})
+    R1 = InterfaceClass('R1', (R0,), {'__module__': wmod()})
+    I = InterfaceClass('I', (Interface,), {'__module__': wmod()})
+    I2 = InterfaceClass('I2', (I,), {'__module__': wmod()})
     K = type('K', (), {})
     implementer(R1)(K)
     if provided:
